@@ -620,6 +620,8 @@ pub fn generate_proof_with_witness(
     #[cfg(test)]
     println!("proof generation took: {:.2?}", now.elapsed());
 
+    check_generated_proof(proving_key, &proof, &full_assignment)?;
+
     Ok(proof)
 }
 
@@ -628,6 +630,32 @@ pub fn generate_proof_with_witness(
 /// # Errors
 ///
 /// Returns an error if `rln_witness.message_id` is not within `rln_witness.user_message_limit`.
+// A witness that does not satisfy the circuit (message id not below the limit or wider than the
+// circuit's range, non-binary path index, ...) still yields a well-formed proof, which no verifier
+// accepts. We check the proof against the witness' public part, so that such a request is
+// reported as an error instead of a success.
+fn check_generated_proof(
+    proving_key: &(ProvingKey<Curve>, ConstraintMatrices<Fr>),
+    proof: &ArkProof<Curve>,
+    full_assignment: &[Fr],
+) -> Result<(), ProofError> {
+    let num_inputs = proving_key.1.num_instance_variables;
+    if num_inputs == 0 || full_assignment.len() < num_inputs {
+        return Err(ProofError::WitnessError(Report::msg(
+            "the witness is shorter than the circuit's public part",
+        )));
+    }
+    let pvk = prepare_verifying_key(&proving_key.0.vk);
+    let verified =
+        Groth16::<_, CircomReduction>::verify_proof(&pvk, proof, &full_assignment[1..num_inputs])?;
+    if !verified {
+        return Err(ProofError::WitnessError(Report::msg(
+            "the witness does not satisfy the circuit",
+        )));
+    }
+    Ok(())
+}
+
 pub fn inputs_for_witness_calculation(
     rln_witness: &RLNWitnessInput,
 ) -> Result<[(&str, Vec<Fr>); 7]> {
@@ -693,6 +721,8 @@ pub fn generate_proof(
 
     #[cfg(test)]
     println!("proof generation took: {:.2?}", now.elapsed());
+
+    check_generated_proof(proving_key, &proof, &full_assignment)?;
 
     Ok(proof)
 }
